@@ -3,6 +3,7 @@ From Coq Require Import String List ZArith NArith Bool Arith Lia Permutation.
 From Jade Require Import Base Tally.
 From Jade.Gen Require Import ReportsGen.
 Import ListNotations.
+Set Default Timeout 60.
 Open Scope string_scope.
 Open Scope list_scope.
 
